@@ -58,8 +58,8 @@ VOCAB = ["name", "num", "n", "flag", "force", "quiet", "lst", "cnt", "opt", "a_b
          "my_list", "x", "log", "fmt", "f", "nn"]
 TASKNAMES = ["t1", "t2", "build", "clean", "deploy"]
 VALUES = ["x", "val", "5", "a=b", "two words", "", "=", "=x", "-x", "--foo", "-", "-5", "v1", "été", "--name", "-zq", "--foo=1",
-          "-n", "--", "0", "name", "a-b"]
-INTVALS = ["5", "0", "12", "-5", "+7", "007"]
+          "-n", "--", "0", "name", "a-b", "subject\n\nbody", "line1\nline2", "0x1F", "08"]
+INTVALS = ["5", "0", "12", "-5", "+7", "007", "08", "-007", "000", "0012"]
 
 
 def dashed(p):
@@ -71,36 +71,126 @@ def long_flag(p):
     return ("--" if len(d) > 1 else "-") + d
 
 
-def build_collection(tasks, rec):
-    """tasks: list of dicts {name, aliases, auto_short, params:[[pname, kind]], sub}.  Returns the real Collection."""
-    from invoke import Task, Collection
-    coll = Collection()
-    sub = None
-    for t in tasks:
-        req = [p for p, k in t["params"] if k == "req"]
-        opt = [(p, k) for p, k in t["params"] if k != "req"]
-        sig = ", ".join(["c"] + req + ["%s=%s" % (p, DEFAULT_SRC[k]) for p, k in opt])
-        body = "_rec.append((%r, {%s}))" % (cli_name(t), ", ".join("%r: %s" % (p, p) for p, _ in t["params"]))
-        fname = "f_" + t["name"].replace("-", "_")
-        ns = {"_rec": rec}
-        exec("def %s(%s):\n    %s\n" % (fname, sig, body), ns)
-        task = Task(ns[fname], name=t["name"], aliases=tuple(t["aliases"]), auto_shortflags=t["auto_short"],
-                    iterable=[p for p, k in t["params"] if k == "list"],
-                    incrementable=[p for p, k in t["params"] if k == "counter"],
-                    optional=[p for p, k in t["params"] if k in ("opt", "optd")])
-        if t.get("sub"):
-            if sub is None:
-                sub = Collection("ns")
-            sub.add_task(task)
-        else:
-            coll.add_task(task)
-    if sub is not None:
-        coll.add_collection(sub)
-    return coll
+def task_path(t):
+    """names of the nested collections the task lives in ([] = root); old cases say `sub: True` for ["ns"]"""
+    if t.get("path") is not None:
+        return list(t["path"])
+    return ["ns"] if t.get("sub") else []
 
 
 def cli_name(t):
-    return ("ns." if t.get("sub") else "") + t["name"]
+    return ".".join(task_path(t) + [t["name"]])
+
+
+def cli_alias(t, a):
+    return ".".join(task_path(t) + [a])
+
+
+def make_task(t, rec):
+    from invoke import Task
+    req = [p for p, k in t["params"] if k == "req"]
+    opt = [(p, k) for p, k in t["params"] if k != "req"]
+    sig = ", ".join(["c"] + req + ["%s=%s" % (p, DEFAULT_SRC[k]) for p, k in opt])
+    body = "_rec.append((%r, {%s}))" % (cli_name(t), ", ".join("%r: %s" % (p, p) for p, _ in t["params"]))
+    fname = "f_" + t["name"].replace("-", "_")
+    ns = {"_rec": rec}
+    exec("def %s(%s):\n    %s\n" % (fname, sig, body), ns)
+    late = t.get("alias_via") == "add"      # aliases handed to Collection.add_task instead of to the Task
+    task = Task(ns[fname], name=t["name"], aliases=() if late else tuple(t["aliases"]), auto_shortflags=t["auto_short"],
+                iterable=[p for p, k in t["params"] if k == "list"],
+                incrementable=[p for p, k in t["params"] if k == "counter"],
+                optional=[p for p, k in t["params"] if k in ("opt", "optd")])
+    return task, (tuple(t["aliases"]) if late else None)
+
+
+def all_paths(tasks):
+    """every collection path needed (prefix-closed), shortest first"""
+    paths = []
+    for t in tasks:
+        p = task_path(t)
+        for n in range(1, len(p) + 1):
+            if p[:n] not in paths:
+                paths.append(p[:n])
+    return sorted(paths, key=len)
+
+
+def inspect_collection(coll, kind):
+    """the ways a namespace is looked at before it is complete"""
+    from invoke.parser import Parser
+    if kind == "bool":
+        bool(coll)
+    elif kind == "names":
+        dict(coll.task_names)
+    elif kind == "contexts":
+        coll.to_contexts()
+    else:
+        try:
+            Parser(contexts=coll.to_contexts()).parse_argv([])
+        except Exception:  # noqa - an incomplete namespace may be unparseable; only the look matters
+            pass
+
+
+def assembled_history(tasks):
+    """the plain order: every collection filled, then attached bottom-up; nothing is inspected on the way"""
+    ops = [["create", p] for p in all_paths(tasks)] + [["task", i] for i in range(len(tasks))]
+    ops += [["attach", p] for p in sorted(all_paths(tasks), key=len, reverse=True)]
+    return ops
+
+
+def incremental_history(tasks, rng):
+    """a random assembly order with inspections in between: sub-collections attached first and filled later (or the
+    other way round), tasks added after an enclosing collection was already looked at, at every depth"""
+    paths = all_paths(tasks)
+    todo = [["create", p] for p in paths] + [["attach", p] for p in paths] + [["task", i] for i in range(len(tasks))]
+    created, ops = [[]], []
+    while todo:
+        ready = []
+        for op in todo:
+            if op[0] == "create":
+                ok = True
+            elif op[0] == "attach":
+                ok = op[1] in created and op[1][:-1] in created
+            else:
+                ok = task_path(tasks[op[1]]) in created
+            if ok:
+                ready.append(op)
+        # prefer attaching early: that is the history in which an enclosing collection can go stale
+        att = [op for op in ready if op[0] == "attach"]
+        op = rng.choice(att) if att and rng.random() < 0.6 else rng.choice(ready)
+        todo.remove(op)
+        ops.append(op)
+        if op[0] == "create":
+            created.append(op[1])
+        if rng.random() < 0.6:
+            target = rng.choice(created)
+            if rng.random() < 0.5:
+                target = target[:rng.randint(0, len(target))]       # an enclosing collection (often the root)
+            if target in created:
+                ops.append(["inspect", target, rng.choice(["bool", "names", "contexts", "parse"])])
+    return ops
+
+
+def build_collection(tasks, rec, history=None):
+    """tasks: list of dicts {name, aliases, auto_short, params:[[pname, kind]], path | sub[, alias_via]}.
+    `history` = the order in which the namespace is assembled and looked at.  Returns the real root Collection."""
+    from invoke import Collection
+    ops = history if history is not None else assembled_history(tasks)
+    colls = {(): Collection()}
+    for op in ops:
+        if op[0] == "create":
+            colls[tuple(op[1])] = Collection(op[1][-1])
+        elif op[0] == "attach":
+            colls[tuple(op[1][:-1])].add_collection(colls[tuple(op[1])])
+        elif op[0] == "task":
+            t = tasks[op[1]]
+            task, late_aliases = make_task(t, rec)
+            if late_aliases is not None:
+                colls[tuple(task_path(t))].add_task(task, aliases=late_aliases)
+            else:
+                colls[tuple(task_path(t))].add_task(task)
+        else:
+            inspect_collection(colls[tuple(op[1])], op[2])
+    return colls[()]
 
 
 def make_initial(kind):
@@ -579,18 +669,21 @@ def random_tasks(rng):
                 k = "str"
             params.append([p, k])
         tasks.append({"name": tn, "aliases": ([tn + "al"] if rng.random() < 0.3 else []) + (["z"] if rng.random() < 0.1 and tn == names[0] else []),
-                      "auto_short": rng.random() < 0.8, "params": params, "sub": rng.random() < 0.12})
+                      "auto_short": rng.random() < 0.8, "params": params,
+                      "path": rng.choice([[], [], [], [], [], ["ns"], ["ns"], ["ns", "deep"], ["docs"], ["ns", "deep", "er"]]),
+                      "alias_via": rng.choice(["task", "task", "add"])})
     return tasks
 
 
 class World:
     """real objects for one set of task signatures"""
 
-    def __init__(self, tasks, initial_kind):
+    def __init__(self, tasks, initial_kind, history=None):
         from invoke.parser import Parser
         self.tasks = tasks
+        self.history = history
         self.rec = []
-        self.coll = build_collection(tasks, self.rec)
+        self.coll = build_collection(tasks, self.rec, history)
         self.contexts = self.coll.to_contexts()
         self.initial = make_initial(initial_kind)
         self.parser = Parser(contexts=self.contexts, initial=self.initial)
@@ -601,10 +694,17 @@ class World:
         core = []
         if self.initial is not None:
             core = list(self.initial.flags.keys()) + list(self.initial.flags.aliases.keys())
+        missing = [cli_name(t) for t in tasks if cli_name(t) not in byname]
+        if missing:
+            # the namespace lost a task that was added to it: take the flag tables from a freshly assembled twin so that
+            # spellings can still be generated (the oracle then reports the refusal on the real, incrementally built one)
+            twin = dict((c.name, c) for c in build_collection(tasks, []).to_contexts())
+            for n in missing:
+                byname[n] = twin[n]
+        self.lost = missing
         self.views = dict((cli_name(t), TaskView(t, byname[cli_name(t)], self.all_names, core)) for t in tasks)
         # name tokens are known by construction (declared name and aliases), not read back from the contexts
-        self.tokens = dict((cli_name(t), [cli_name(t)] + [("ns." if t.get("sub") else "") + a for a in t["aliases"]])
-                           for t in tasks)
+        self.tokens = dict((cli_name(t), [cli_name(t)] + [cli_alias(t, a) for a in t["aliases"]]) for t in tasks)
         for toks in self.tokens.values():
             self.all_names += [x for x in toks if x not in self.all_names]
 
@@ -657,6 +757,25 @@ def damage(rng, argv, world):
     return argv
 
 
+def kind_is_int(v):
+    return v.lstrip("+-").isdigit()
+
+
+def stale_prone(tasks, history):
+    """a task enters an already ATTACHED sub-collection after an enclosing collection was inspected"""
+    attached, inspected = set(), set()
+    for op in history:
+        if op[0] == "attach":
+            attached.add(tuple(op[1]))
+        elif op[0] == "inspect":
+            inspected.add(tuple(op[1]))
+        elif op[0] == "task":
+            p = tuple(task_path(tasks[op[1]]))
+            if p and all(p[:n] in attached for n in range(1, len(p) + 1)) and any(p[:n] in inspected for n in range(len(p))):
+                return True
+    return False
+
+
 def form_hist(out, chain, names=()):
     for c in chain:
         for it in c["items"]:
@@ -668,6 +787,10 @@ def form_hist(out, chain, names=()):
             out.hist["form:" + name] += 1
             v = it[2] if t in ("S", "E", "G") else it[1] if t == "P" else None
             if v is not None:
+                if "\n" in v:
+                    out.hist["value:with-newline"] += 1
+                if t != "P" and kind_is_int(v) and len(v.lstrip("+-")) > 1 and v.lstrip("+-")[0] == "0":
+                    out.hist["value:zero-padded-digits"] += 1
                 cls = ("empty" if v == "" else "flag-like" if v.startswith("-") else "has-eq" if "=" in v else
                        "task-name" if v in names else "plain")
                 out.hist["value:" + cls] += 1
@@ -684,8 +807,10 @@ def run(ctx):
     for _ in range(n_worlds):
         tasks = random_tasks(rng)
         ik = rng.choice(["none", "empty", "empty", "core", "core"])
+        nested = any(task_path(t) for t in tasks)
+        history = incremental_history(tasks, rng) if (rng.random() < (0.7 if nested else 0.3)) else None
         try:
-            w = World(tasks, ik)
+            w = World(tasks, ik, history)
         except ValueError:
             skipped += 1
             continue
@@ -698,10 +823,12 @@ def run(ctx):
             chain = []
             for ci, cn in enumerate(callnames):
                 chain.append(spell_call(w.views[cn], rng.choice(w.tokens[cn]), rng, ci == len(callnames) - 1))
-            case = {"tasks": tasks, "initial": ik, "chain": chain, "argv": argv_of(chain), "program": rng.random() < 0.12}
+            case = {"tasks": tasks, "initial": ik, "chain": chain, "argv": argv_of(chain), "program": rng.random() < 0.12,
+                    "history": history}
             batch.append((w, case))
             if rng.random() < 0.2:
-                dcase = {"tasks": tasks, "initial": ik, "chain": None, "argv": damage(rng, case["argv"], w), "program": False}
+                dcase = {"tasks": tasks, "initial": ik, "chain": None, "argv": damage(rng, case["argv"], w), "program": False,
+                         "history": history}
                 batch.append((w, dcase))
     out.hist["skipped_signature_sets(ValueError)"] = skipped
     if ctx.thorough or ctx.escalated:
@@ -718,6 +845,25 @@ def run(ctx):
             if len(chain) > 1 and len(set(c["primary"] for c in chain)) < len(chain):
                 out.hist["same_task_twice"] += 1
             out.hist["initial:" + case["initial"]] += 1
+            depth = max(len(task_path(t)) for t in case["tasks"])
+            out.hist["namespace_depth_%d" % depth] += 1
+            out.hist["called_name_depth_%d" % max(c["task"].count(".") for c in chain)] += 1
+            h = case.get("history")
+            if h is None:
+                out.hist["history:assembled-then-inspected"] += 1
+            else:
+                out.hist["history:incremental"] += 1
+                seen = False
+                late = False
+                for op in h:
+                    if op[0] == "inspect":
+                        seen = True
+                    elif seen and op[0] in ("task", "attach"):
+                        late = True
+                if late:
+                    out.hist["history:changed-after-inspection"] += 1
+                if stale_prone(case["tasks"], h):
+                    out.hist["history:nested-task-added-after-enclosing-inspected"] += 1
         why = check_case(w, case, out, ml, case["program"])
         if why:
             out.fail(case, why)
@@ -808,7 +954,7 @@ def exhaustive_cases(out):
 # ----------------------------------------------------------------------------------------------- replay
 
 def replay(case):
-    w = World(case["tasks"], case["initial"])
+    w = World(case["tasks"], case["initial"], case.get("history"))
     for c in case["chain"] or []:
         c["items"] = [list(it) for it in c["items"]]
     got, delivered, err = run_parser(w.parser, case["argv"])
